@@ -21,7 +21,6 @@ package store
 import (
 	"context"
 	"database/sql"
-	"fmt"
 	"path"
 	"time"
 
@@ -79,7 +78,11 @@ func (s *MySQLReplicateStore) Get(ctx context.Context, key string, withPrefix bo
 	var sqlStr string
 	var sqlArgs []any
 	if withPrefix {
-		sqlStr = fmt.Sprintf("SELECT task_msg_value FROM task_msg WHERE task_msg_key LIKE '%s%%'", taskMsgKey)
+		if key == "" {
+			taskMsgKey += "/"
+		}
+		sqlStr = "SELECT task_msg_value FROM task_msg WHERE task_msg_key LIKE ?"
+		sqlArgs = append(sqlArgs, likePrefixPattern(taskMsgKey))
 	} else {
 		sqlStr = "SELECT task_msg_value FROM task_msg WHERE task_msg_key = ?"
 		sqlArgs = append(sqlArgs, taskMsgKey)
